@@ -89,4 +89,24 @@ func init() {
 		RequiredProbes: []string{"probe:workers-interleaved", "probe:fewer-elements-than-workers", "probe:count-not-divisible-by-pool", "probe:field-spans-many-blocks", "probe:no-surface"},
 		TimeUnit:       "scheduler steps (one released task per step)",
 	})
+
+	register(PropCfg{
+		ID:    "C12",
+		Level: "exploration",
+		Rule: "one evaluation = one save+restart inside a generated edit history (5-60 operations: create node of any registered type, connect type-compatible ports incl. bursts on array ports, disconnect, parameter value/name/description for every parameter type, producers, metadata set/delete, delete unused nodes) executed on a real generator.App; at every restart only the bytes of App.Schema() survive, are loaded into fresh Apps, and re-saved bytes, structure (through the public schema) and artifacts of deterministic producers are compared; the history continues on the reloaded App. Some histories start from the graph shipped in examples/graphs. " +
+			"distinct_nontrivial = distinct histories (hash of the operation log) containing at least one restart after at least one wiring edit, or starting from a shipped graph",
+		Scenarios: []ScenCfg{{Name: "edit-save-restart", Chunk: 100, QuickRuns: 6000, QuickS: 60, ThoroughRuns: 4000000, ThoroughS: 900, Procs: 2, DetQuick: 60, DetThorough: 400}},
+		Assumptions: []string{
+			"execution counters (version) are not part of the saved graph and are excluded from the comparison",
+			"artifacts are compared only for producers whose whole cone consists of node types that are deterministic functions of their inputs (nodes/experimental noise/texture nodes and the glTF writer are excluded by type) and whose content agrees between two independent loads",
+			"parameter defaults are not compared (not an editing operation); name, description and current value are",
+			"an editing call that panics on unmet preconditions is recorded and tolerated; the state it leaves behind must still round-trip",
+		},
+		RealVsStub: map[string]string{
+			"real": "generator.App (Schema, ApplySchema), graph.Instance editing API, all 76 registered node types plus two harness types, parameter (de)serialisation, jbtf encoder, sync.NestedSyncMap",
+			"stub": "restart = drop the App and keep only the saved bytes (no file system; GraphSaver's os.WriteFile is outside the property); HTTP front end not simulated",
+		},
+		RequiredProbes: []string{"fault:restart", "probe:array-input-with-10+-connections", "probe:shipped-graph-start", "artifact:compared-equal", "op:array-remove"},
+		TimeUnit:       "edit operations",
+	})
 }
